@@ -1118,6 +1118,7 @@ def unique(seq, full=None):
         _max = max(unique)
     elif isinstance(full, dict): # specified min/max for floats
         if 'type' in full: #NOTE: undocumented keys: min,max,type
+            full = dict(full) # don't alter the given dict
             _type = full['type']; del full['type']
         else: _type = float
         minu = min(unique)
